@@ -327,7 +327,7 @@ impl Prop for C19 {
         ]
     }
     fn cases(tier: Tier) -> u32 {
-        tier.pick(1_600, 30_000)
+        tier.pick(1_600, 60_000)
     }
     fn strategy(_tier: Tier) -> BoxedStrategy<Case> {
         let locs = vec!["PENINSULA", "CANARIAS", "BALEARES", "CEUTAMELILLA"];
